@@ -857,7 +857,8 @@ func rebaseAddStep(dc *dagConfig, rBaseOld, rBaseNew ref.Ref) error {
 			})
 		}
 		dm.layers = append(dagAdd, dm.layers...)
-		layers = append(layersNew, layers...)
+		// the new base manifest is cached for the other platforms, do not append into its slice
+		layers = append(slices.Clone(layersNew), layers...)
 		err = mi.SetLayers(layers)
 		if err != nil {
 			return err
